@@ -196,10 +196,30 @@ fn run1<T: Flt>(src: &mut Src, obs: &mut Obs) -> Result<(), Fail> {
             shape = vec![c.n + src.usize_in(1, 3)];
             obs.class("batch:axis-prefix");
         }
+        // rarely a very long rank-1 batch (block-wise processing): the elements cycle through a small pool
+        let very_long = rank == 1 && !axis_prefix && src.chance(1, 100);
+        if very_long {
+            shape = vec![src.usize_in(4097, 9000)];
+            obs.class("batch:very-long");
+        }
         let len = product(&shape);
         obs.class(format!("qdim:{}", qd.name()));
         let mut qs: Vec<T> = Vec::with_capacity(len);
+        let pool: Vec<T> = if very_long {
+            (0..16)
+                .map(|_| {
+                    let cls = src.pick(&RQ::GOOD);
+                    make_q::<T>(src, &c.x, cls)
+                })
+                .collect()
+        } else {
+            vec![]
+        };
         for k in 0..len {
+            if very_long {
+                qs.push(pool[k % 16]);
+                continue;
+            }
             if axis_prefix && k < c.n {
                 qs.push(T::of(c.x[k]));
                 continue;
